@@ -337,6 +337,10 @@ fn run_case(case: &Value, shared: &mut Option<SmartCalc>) -> Vec<Value> {
                     let r = calc.delete_rule(s(op, "lang"), s(op, "name"));
                     json!({"ret": r})
                 }
+                "set_date_rule" => {
+                    calc.set_date_rule(&s(op, "lang"), strs(op, "patterns"));
+                    json!({"ret": null})
+                }
                 "add_type" => {
                     let r = calc.add_dynamic_type(s(op, "name"));
                     json!({"ret": r})
